@@ -1,7 +1,7 @@
 CONSTANTS
   Dev = {}
   Budget = 2
-  Shapes = {"secure3", "insecure3", "secure4", "insecure4"}
+  Shapes = {"secure3", "insecure3", "secure4", "insecure4", "entapex_s", "entapex_i", "entname_s", "entname_i"}
   Denials = {"nsec", "nsec3", "optout"}
   QKinds = {"positive", "wildcard", "nodata", "nxdomain", "cname1", "cname2", "ds", "dname", "dnamex"}
   AdvActs = {"ForgeSigned", "CorruptKey", "CorruptDs", "DropRrset"}
